@@ -204,6 +204,17 @@ func New(sc *Scenario, k *kernel.Kernel) (*World, error) {
 			st.PwmPath = filepath.Join(cd, fmt.Sprintf("pwm%d", pc))
 			if !f.Driver.NoEnable {
 				st.EnaPath = filepath.Join(cd, fmt.Sprintf("pwm%d_enable", pc))
+			} else {
+				// an output without an enable attribute (also when the channel was listed among the extras)
+				_ = os.Remove(filepath.Join(cd, fmt.Sprintf("pwm%d_enable", pc)))
+			}
+			if pc != f.Channel {
+				// the fan's own channel has a PWM output of its own, which this entry does not use
+				for name, val := range map[string]string{fmt.Sprintf("pwm%d", f.Channel): "88", fmt.Sprintf("pwm%d_enable", f.Channel): "2"} {
+					if _, err := os.Stat(filepath.Join(cd, name)); err != nil {
+						writeFile(filepath.Join(cd, name), val)
+					}
+				}
 			}
 		case "file", "cmd":
 			st.PwmPath = filepath.Join(dir, "files", f.ID+".pwm")
